@@ -24,6 +24,8 @@ Require Import V.Proofs.C04Proofs.
 Require Import V.Proofs.StreamRefine.
 Require Import V.Proofs.StreamExcl.
 Require Import V.Proofs.C01Theorems.
+Require Import V.Oracle.C01Oracle.
+Require Import V.Proofs.C01OracleTop.
 Open Scope Z_scope.
 
 (* (1) delivered is a prefix of accepted - same bytes, same order, nothing twice, nothing else;
@@ -98,3 +100,54 @@ Theorem C01_drained_exclusive : forall init tlen mtu ses str n0 off0 m rv,
   im_pos (sy_img s2) = pos_after (sg_p0 (sgeom_of tlen mtu n0 off0)) (sp_stream sp).
 Proof. exact exclusive_drained. Qed.
 Print Assumptions C01_drained_exclusive.
+
+(* ---- the oracle (Oracle/C01Oracle.v, computed from the observations alone) is true on the model's own observations,
+   for every history that keeps the contract, both flavours ---- *)
+Theorem C01_oracle_model : forall init tlen mtu ses str n0 off0 m rv ops,
+  handover_ok init tlen mtu n0 off0 ->
+  contract shared m rv (sys0_shared init tlen mtu ses str n0 off0) ops = true ->
+  holds_c01 (mkC01Geom tlen mtu init n0 off0 ses) ops (sys_observe shared m rv (sys0_shared init tlen mtu ses str n0 off0) ops) = true.
+Proof. exact shared_oracle_model. Qed.
+Print Assumptions C01_oracle_model.
+
+Theorem C01_oracle_model_exclusive : forall init tlen mtu ses str n0 off0 m rv s0 ops,
+  handover_ok init tlen mtu n0 off0 ->
+  sys0_exclusive init tlen mtu ses str n0 off0 = Ok s0 ->
+  contract exclusive m rv s0 ops = true ->
+  holds_c01 (mkC01Geom tlen mtu init n0 off0 ses) ops (sys_observe exclusive m rv s0 ops) = true.
+Proof. exact exclusive_oracle_model. Qed.
+Print Assumptions C01_oracle_model_exclusive.
+
+(* ---- non-vacuity: a 1 KiB-term log handed over at term count 2, 192 bytes before the end of the term, initial term id
+   i32::MAX (the next term id wraps): a 2-fragment message, a message that does not fit (AdminAction, padding, rotation),
+   a 3-fragment message in the next term, the driver's cleaning, polls with limits 1 and 10 until drained ---- *)
+Definition ex_ops : list sop :=
+  [SSetLimit 3904; SSetConnected true; SOffer 1 40; SPoll 10; SOffer 2 100; SOffer 3 70; SPoll 1; SPoll 10; SPoll 10;
+   SClean 1; SClaim 8; SPoll 10; SCommit 4; SPoll 10; SPoll 10].
+
+Example C01_handover_example : handover_ok 2147483647 1024 64 2 832.
+Proof. unfold handover_ok, geometry_ok. repeat split; try (exists 10; repeat split); try discriminate; try reflexivity. Qed.
+
+Example C01_contract_example :
+  contract shared Debug harness_rv (sys0_shared 2147483647 1024 64 11 22 2 832) ex_ops = true /\
+  (exists s0, sys0_exclusive 2147483647 1024 64 11 22 2 832 = Ok s0 /\ contract exclusive Release harness_rv s0 ex_ops = true).
+Proof. split; [vm_compute; reflexivity|]. eexists. split; [reflexivity|]. vm_compute. reflexivity. Qed.
+
+(* what the theorems say about it: three messages accepted at 3008, 3264 (after the term end at 3072) and 3328,
+   all three delivered, subscriber position = publisher position = 3328 *)
+Example C01_run_example :
+  let s0 := sys0_shared 2147483647 1024 64 11 22 2 832 in
+  let sp := spec_run (sgeom_of 1024 64 2 832) spec0 (sys_events shared Debug harness_rv s0 ex_ops) in
+  map snd (sp_acc sp) = [3008; 3264; 3328] /\ sp_del sp = map fst (sp_acc sp) /\
+  map (fun b => Z.of_nat (length b)) (sp_del sp) = [40; 70; 8] /\
+  pos_after 2880 (sp_stream sp) = 3328 /\
+  im_pos (sy_img (sys_run shared Debug harness_rv s0 ex_ops)) = 3328.
+Proof. vm_compute. repeat split; reflexivity. Qed.
+
+(* the 64 KiB / MTU 4096 history of the design: term count 2, a 3-fragment message across the term end *)
+Example C01_contract_example_64k :
+  handover_ok 5 65536 4096 2 57344 /\
+  contract shared Release harness_rv (sys0_shared 5 65536 4096 11 22 2 57344)
+    [SSetLimit (2 * 65536 + 57344 + 65536); SOffer 1 8000; SOffer 2 8192; SPoll 10; SOffer 2 8192; SPoll 2; SPoll 10; SPoll 10] = true.
+Proof. split; [|vm_compute; reflexivity].
+  unfold handover_ok, geometry_ok. repeat split; try (exists 16; repeat split); try discriminate; try reflexivity. Qed.
